@@ -491,7 +491,7 @@ struct Truth {
 
 /// Expected verdict, by construction, computed from the bundle as delivered.
 fn truth(dl: &Delivered, d: &[[u8; 32]; 7]) -> Truth {
-    let unknown_cond = dl.spends.iter().any(|s| s.fillers.iter().any(|f| f.1 == 1 || f.1 == 4) || s.conds.iter().any(|c| c.extra_args > 0));
+    let unknown_cond = dl.spends.iter().any(|s| s.fillers.iter().any(|f| matches!(f.1, 1 | 4 | 5 | 6)) || s.conds.iter().any(|c| c.extra_args > 0));
     let mut pairs = vec![];
     let mut bad_key = false;
     let mut unsafe_suffix = false;
@@ -564,6 +564,15 @@ fn cond_list(a: &mut Allocator, s: &DSpend) -> NodePtr {
                 let op = a.nil();
                 let m = a.new_atom(b"x").unwrap();
                 list(a, &[op, m])
+            }
+            5 | 6 => {
+                // AGG_SIG_ME by an honest key nobody signed for, with the opcode written as 0x0032
+                // (redundant leading zero) or as the two-byte opcode 0x0132: unknown conditions,
+                // no pair is due
+                let op = a.new_atom(&[if kind == 5 { 0 } else { 1 }, 50]).unwrap();
+                let k = a.new_atom(&key_bytes(&KeySpec::Pool(1))).unwrap();
+                let m = a.new_atom(b"not signed").unwrap();
+                list(a, &[op, k, m])
             }
             _ => {
                 let op = a.new_atom(&[1]).unwrap();
@@ -1206,7 +1215,7 @@ fn gen_bundle(rng: &mut Rng, parent_counter: &mut u64, tamper_pct: u64, d: &[[u8
             5 | 6 => 1,
             _ => rng.range(2, 3),
         };
-        let fillers: Vec<(u8, u8)> = (0..nf).map(|_| (rng.below(conds.len() as u64 + 1) as u8, rng.below(5) as u8)).collect();
+        let fillers: Vec<(u8, u8)> = (0..nf).map(|_| (rng.below(conds.len() as u64 + 1) as u8, rng.below(7) as u8)).collect();
         spends.push(SpendSpec { parent_seed, amount, conds, quoted: rng.chance(1, 3), fillers });
     }
     let total: usize = spends.iter().map(|s| s.conds.len()).sum();
